@@ -41,6 +41,14 @@ def main(argv=None):
         chk = report.Check(pid, args.tier, repo, mod.EXPLANATION,
                            mod.NOT_DECIDED, mod.ASSUMPTIONS)
         mod.run(chk, repo, args.tier)
+        if args.tier == 'thorough':
+            from pgsa import sweeps
+            if hasattr(mod, 'thorough'):
+                mod.thorough(chk, repo)
+            sweeps.definite_assignment(chk, repo)
+            sweeps.py2_dunders(chk, repo)
+            sweeps.format_arity(chk, repo)
+            sweeps.purity_inventory(chk, repo)
         rc = chk.finish()
         if args.replay:
             import json
